@@ -202,8 +202,13 @@ func (_this *markerObjectBuilder) BuildEndContainer(ctx *Context) {
 	_this.child.BuildEndContainer(ctx)
 }
 
+// This builder is only on top of the stack while the marked object has not
+// arrived yet (a marked container stacks its own builder above this one), so
+// there is nothing to end here, only this builder to drop. Passing the call on
+// would make the parent end itself and then be told that a child - itself -
+// has finished.
 func (_this *markerObjectBuilder) BuildArtificiallyEndContainer(ctx *Context) {
-	_this.child.BuildArtificiallyEndContainer(ctx)
+	ctx.UnstackBuilder()
 }
 
 func (_this *markerObjectBuilder) NotifyChildContainerFinished(ctx *Context, value reflect.Value) {
